@@ -945,7 +945,7 @@ static char *detect_include_guard(Token *tok) {
   return NULL;
 }
 
-static Token *include_file(Token *tok, char *path, Token *filename_tok) {
+static Token *include_file(Token *tok, char *path, Token *filename_tok, int next_idx) {
   // Check for "#pragma once"
   if (hashmap_get(&pragma_once, path))
     return tok;
@@ -961,6 +961,10 @@ static Token *include_file(Token *tok, char *path, Token *filename_tok) {
   Token *tok2 = tokenize_file(path);
   if (!tok2)
     error_tok(filename_tok, "%s: cannot open file: %s", path, strerror(errno));
+
+  // #include_next in this file continues the search behind the
+  // directory it was found in, whatever is looked up in between.
+  tok2->file->include_next_idx = next_idx;
 
   guard_name = detect_include_guard(tok2);
   if (guard_name)
@@ -1031,21 +1035,22 @@ static Token *preprocess2(Token *tok) {
       if (filename[0] != '/' && is_dquote) {
         char *path = format("%s/%s", dirname(strdup(start->file->name)), filename);
         if (file_exists(path)) {
-          tok = include_file(tok, path, start->next->next);
+          tok = include_file(tok, path, start->next->next, 0);
           continue;
         }
       }
 
       char *path = search_include_paths(filename);
-      tok = include_file(tok, path ? path : filename, start->next->next);
+      tok = include_file(tok, path ? path : filename, start->next->next, include_next_idx);
       continue;
     }
 
     if (equal(tok, "include_next")) {
       bool ignore;
       char *filename = read_include_filename(&tok, tok->next, &ignore);
+      include_next_idx = start->file->include_next_idx;
       char *path = search_include_next(filename);
-      tok = include_file(tok, path ? path : filename, start->next->next);
+      tok = include_file(tok, path ? path : filename, start->next->next, include_next_idx);
       continue;
     }
 
